@@ -2,8 +2,9 @@
     Directives: ExtrOcamlBasic (bool, option, list, prod, unit, sumbool -> OCaml's),
     ExtrOcamlString (ascii -> char, string -> char list). N/positive/nat stay inductive. *)
 From Coq Require Import Extraction ExtrOcamlBasic ExtrOcamlString.
-From IastRw Require Import Ast Generated Config Model.
+From IastRw Require Import Ast Generated Config Model HookSites Known.
 Extraction Language OCaml.
 Extraction "../ocaml/model.ml"
   kind_of_string string_of_kind node_eqb node_size node_depth
-  rewrite default_fuel N_to_string.
+  rewrite default_fuel N_to_string
+  hook_count hook_names hook_tags known_classes var_prefix hook_sites.
